@@ -106,7 +106,7 @@ func sortedKeys(m map[string][]byte) []string {
 
 func (s *bsim) genKeys() {
 	c := s.c
-	n := []int{6, 40, 120, 400, 1300}[c.Weighted([]int{2, 3, 4, 3, 1})]
+	n := []int{6, 40, 120, 400, 1300}[c.Weighted([]int{1, 2, 4, 4, 2})]
 	shape := c.Intn(3)
 	s.keys = make([]string, n)
 	for i := range s.keys {
@@ -1004,6 +1004,9 @@ func runBptree(c *kernel.Choices, p kernel.Params) *kernel.Result {
 	}
 	// initial fill so that splits exist early
 	fill := c.Intn(len(s.keys) + 1)
+	if c.Bool() {
+		fill = len(s.keys)/2 + fill/2
+	}
 	for i := 0; i < fill && !s.stop; i++ {
 		s.opSet()
 	}
